@@ -26,6 +26,7 @@ use crate::reference::{RefBlock, RefState, RefStep};
 use crate::scenario::{BlockSpec, EvmSpec, TxSpec};
 use alloy_evm::precompiles::PrecompilesMap;
 use grevm::{DynParallelPrecompile, TxExecutionOutcome};
+use revm::interpreter::interpreter_types::Jumps;
 use revm::{
     Context, DatabaseCommit, DatabaseRef, InspectEvm, MainBuilder, MainContext,
     context_interface::{ContextTr, JournalTr, Transaction},
@@ -76,7 +77,7 @@ impl<CTX> Inspector<CTX, EthInterpreter> for ReserveInspector
 where
     CTX: ContextTr<Journal: JournalTr<State = EvmState>>,
 {
-    fn step(&mut self, interp: &mut Interpreter<EthInterpreter>, _context: &mut CTX) {
+    fn step(&mut self, interp: &mut Interpreter<EthInterpreter>, context: &mut CTX) {
         if let Some(gas) = self.force &&
             !self.forced &&
             self.frames.len() == 1
@@ -86,6 +87,25 @@ where
             gas.set_refund(0);
             interp.gas = gas;
             interp.halt(InstructionResult::Revert);
+            return;
+        }
+        // SELFDESTRUCT is observed at the instruction itself (contract = the frame's state account, heir =
+        // top of the stack). revm's `Inspector::selfdestruct` callback is not used: it reports the LAST
+        // journal entry, which is an unrelated earlier transfer when the instruction moves nothing (heir
+        // = the account itself on Cancun and later). A debit recorded here is tentative like every other:
+        // it survives only if this frame and all enclosing frames end successfully.
+        if interp.bytecode.opcode() == 0xff &&
+            let Ok(heir) = interp.stack.peek(0)
+        {
+            let contract = interp.input.target_address;
+            let heir = Address::from_word(heir.into());
+            let balance = context.journal().evm_state().get(&contract).map(|a| a.info.balance).unwrap_or_default();
+            if heir != contract &&
+                !balance.is_zero() &&
+                let Some(frame) = self.frames.last_mut()
+            {
+                frame.push(Debit { source: contract, balance_before: balance });
+            }
         }
     }
 
@@ -119,14 +139,6 @@ where
         self.close(outcome.result.result.is_ok(), outcome.result.gas);
     }
 
-    fn selfdestruct(&mut self, contract: Address, target: Address, value: U256) {
-        if !value.is_zero() &&
-            contract != target &&
-            let Some(frame) = self.frames.last_mut()
-        {
-            frame.push(Debit { source: contract, balance_before: value });
-        }
-    }
 }
 
 /// Saturating sum of the maximum costs of `account`'s own transactions after index `i`.
